@@ -166,7 +166,7 @@ func TestVerifC08Ntor(t *testing.T) {
 			if ok == zero {
 				rt.Fatalf("VIOL[c08-degenerate-key-not-refused]: ServerHandshake ok=%v for client key %x, but a Diffie-Hellman result is all-zero: %v", ok, peer, zero)
 			}
-			if ok != ref.OK || !bytes.Equal(ks.Bytes()[:], ref.KeySeed) || !bytes.Equal(au.Bytes()[:], ref.Auth) {
+			if ok != ref.OK || (ok && (!bytes.Equal(ks.Bytes()[:], ref.KeySeed) || !bytes.Equal(au.Bytes()[:], ref.Auth))) {
 				rt.Fatalf("VIOL[c08-server-differs-from-reference]: hostile X=%x: got (%v, %x), reference (%v, %x)", peer, ok, ks.Bytes()[:], ref.OK, ref.KeySeed)
 			}
 		case 1: // client receives Y = peer
@@ -176,7 +176,7 @@ func TestVerifC08Ntor(t *testing.T) {
 			if ok == zero {
 				rt.Fatalf("VIOL[c08-degenerate-key-not-refused]: ClientHandshake ok=%v for server key %x, but a Diffie-Hellman result is all-zero: %v", ok, peer, zero)
 			}
-			if ok != ref.OK || !bytes.Equal(ks.Bytes()[:], ref.KeySeed) || !bytes.Equal(au.Bytes()[:], ref.Auth) {
+			if ok != ref.OK || (ok && (!bytes.Equal(ks.Bytes()[:], ref.KeySeed) || !bytes.Equal(au.Bytes()[:], ref.Auth))) {
 				rt.Fatalf("VIOL[c08-client-differs-from-reference]: hostile Y=%x: got (%v, %x), reference (%v, %x)", peer, ok, ks.Bytes()[:], ref.OK, ref.KeySeed)
 			}
 		default: // client configured with identity key B = peer
@@ -186,7 +186,7 @@ func TestVerifC08Ntor(t *testing.T) {
 			if ok == zero {
 				rt.Fatalf("VIOL[c08-degenerate-key-not-refused]: ClientHandshake ok=%v for identity key %x, but a Diffie-Hellman result is all-zero: %v", ok, peer, zero)
 			}
-			if ok != ref.OK || !bytes.Equal(ks.Bytes()[:], ref.KeySeed) || !bytes.Equal(au.Bytes()[:], ref.Auth) {
+			if ok != ref.OK || (ok && (!bytes.Equal(ks.Bytes()[:], ref.KeySeed) || !bytes.Equal(au.Bytes()[:], ref.Auth))) {
 				rt.Fatalf("VIOL[c08-client-differs-from-reference]: hostile B=%x: got (%v, %x), reference (%v, %x)", peer, ok, ks.Bytes()[:], ref.OK, ref.KeySeed)
 			}
 		}
